@@ -685,14 +685,21 @@ fn ser_decimal(node: &'static SchemaNode<'static>, d: rust_decimal::Decimal) -> 
 		Err(e) => Err(e),
 	}
 }
-/// any rust_decimal value of the node's scale: sign x 96-bit mantissa (the documented limit)
+/// any rust_decimal value of the node's scale: sign x 96-bit mantissa (the documented limit), incl. negative zero
 fn any_decimal(scale: u32) -> (rust_decimal::Decimal, i128) {
 	let lo: u32 = kani::any();
 	let mid: u32 = kani::any();
 	let hi: u32 = kani::any();
 	let neg: bool = kani::any();
 	let mag: i128 = (lo as i128) | ((mid as i128) << 32) | ((hi as i128) << 64);
-	(rust_decimal::Decimal::from_parts(lo, mid, hi, neg, scale), if neg { -mag } else { mag })
+	let mut d = rust_decimal::Decimal::from_parts(lo, mid, hi, neg, scale);
+	if neg {
+		// from_parts normalises the sign of a zero mantissa away; rust_decimal nevertheless produces
+		// NEGATIVE ZERO (sign flag on a zero mantissa: from_f64(-0.0), rescale of a small negative
+		// number) - keep that representation in the domain
+		d.set_sign_negative(true);
+	}
+	(d, if neg { -mag } else { mag })
 }
 
 //@ harness: c02_decimal_value_to_bytes
